@@ -109,3 +109,13 @@ Proof.
   fold src in R. change (Z.of_nat 0) with 0 in R. Lia.lia.
 Qed.
 Print Assumptions C16_edit_whole_blocks.
+
+(** [compute_delta] - the delta of the theorems above - is the translation of src/sync.rs `CopiaSync::delta` and of
+    src/async_sync.rs `AsyncCopiaSync::delta` (the engine of `copia delta`) as the source has them now: the index-based
+    `while pos + block_size <= len` loop, the rolling checksum re-initialised after a match and rolled after a literal
+    byte, the weak-then-strong lookup, the literal tail (Gen/ScanGen.v, Proofs/TieScan.v); the lookup table itself
+    (first block in signature order with that weak and strong hash) stays a modelled part tied by correspondence. *)
+Require Copia.Proofs.TieScan.
+Theorem C16_scan_is_translation_of_source : TieScan.scan_model_is_translation.
+Proof. exact TieScan.scan_model_is_translation_holds. Qed.
+Print Assumptions C16_scan_is_translation_of_source.
